@@ -605,6 +605,33 @@ func runC19(c *Cfg) {
 		}
 	}
 	parallel(c, len(nilCases), func(i int) { runCfg(c, nilCases[i]) })
+	// long option lists (13..24 settings in one constructor call / one chain): the last setting of each parameter still wins
+	nl := c.Pick(3000, 200000)
+	parallel(c, nl, func(i int) {
+		rg := c.Rng("c19long", i)
+		l := 13 + rg.IntN(12)
+		seq := make([]Setting, l)
+		for j := range seq {
+			seq[j] = Setting{Kind: rg.IntN(numSettings), Val: rg.IntN(2)}
+		}
+		split := []int{l, 0, rg.IntN(l + 1)}[i%3]
+		runCfg(c, &CfgCase{Family: "long-lists", Batch: i%2 == 0, Seq: seq, Split: split})
+	})
+	// options that READ the current configuration see the documented defaults in every constructor
+	readingOpt := func(b *flyt.BaseNode) { flyt.WithMaxRetries(b.GetMaxRetries() + 2)(b) }
+	for name, got := range map[string]int{
+		"NewBaseNode(opt)":             flyt.NewBaseNode(flyt.NodeOption(readingOpt)).GetMaxRetries(),
+		"NewBaseNode(raw func)":        flyt.NewBaseNode(readingOpt).GetMaxRetries(),
+		"NewNode(opt)":                 flyt.NewNode(flyt.NodeOption(readingOpt)).GetMaxRetries(),
+		"NewBatchNode(opt)":            flyt.NewBatchNode(flyt.NodeOption(readingOpt)).GetMaxRetries(),
+		"opt applied to NewBaseNode()": func() int { b := flyt.NewBaseNode(); readingOpt(b); return b.GetMaxRetries() }(),
+	} {
+		r.Eval()
+		if got != 3 {
+			r.Violate("C19", "C19:option-sees-defaults", fmt.Sprintf("an option that adds 2 to the current retry budget, through %s: budget %d, want 3 (the documented default of 1 is in place when options run, whatever the constructor)", name, got), map[string]any{"family": "reading-option", "route": name})
+		}
+		r.Nontrivial("ro:" + name)
+	}
 	n := c.Pick(50000, 3000000)
 	parallel(c, n, func(i int) {
 		rg := c.Rng("c19", i)
